@@ -66,6 +66,10 @@ func main() {
 	switch os.Args[1] {
 	case "worker":
 		mc.WorkerMain()
+	case "shard":
+		sh, _ := strconv.Atoi(os.Args[4])
+		n, _ := strconv.Atoi(os.Args[5])
+		os.Exit(props.ShardMain(os.Args[2], os.Args[3], sh, n))
 	case "list":
 		ids := []string{}
 		for id := range props.Checks {
